@@ -534,9 +534,15 @@ func RunSyncBehaviour(c *Ctx, name string, toks []Tok, ih uint64, shapeName stri
 				if i+1 < len(toks) && toks[i+1].S("a") == "crash" {
 					s.full.KV.Arm(toks[i+1].I("w"))
 				}
+				// a refused write that follows belongs to this delivery too: the write after the first w is refused
+				if i+1 < len(toks) && toks[i+1].S("a") == "wfail" {
+					s.orderlyOnErr = true
+					s.full.KV.FailWrite(toks[i+1].I("w") + 1)
+				}
 				via := vias[(int(c.Seed)+i+len(name))%3]
 				s.deliver(t.S("kind"), uint64(t.I("h")), via)
 				s.full.KV.Disarm()
+				s.full.KV.FailWrite(0)
 			case "restart":
 				if t.S("kind") == "clean" {
 					if !s.isDown() {
